@@ -35,6 +35,11 @@ type c06Prog struct {
 	Post  bool   `json:"branch_inside_input_handling"`
 	K     uint32 `json:"flag"`
 	M     bool   `json:"mode"`
+	// Rel: the child node additionally starts with CATCH _ k !m (a taken CATCH with a relative target).
+	Rel bool `json:"relative_catch_in_child,omitempty"`
+	// Phase: the external function returns FlagSet on its first call and FlagReset on every later call,
+	// and the child node RELOADs it, so that reset requests meet flags set by an earlier call.
+	Phase bool `json:"two_phase_answers,omitempty"`
 }
 
 type c06Witness struct {
@@ -61,11 +66,26 @@ func c06App(p c06Prog, set, reset []uint32) *app.App {
 		a.Node("root", "root", codec.Ins{Op: codec.MOUT, Sym: "go", Sel: "1"}, codec.Ins{Op: codec.HALT},
 			codec.Ins{Op: codec.INCMP, Sym: "aa", Sel: "1"}, codec.Ins{Op: codec.LOAD, Sym: "ff", N: 0}, br, codec.Ins{Op: codec.INCMP, Sym: ".", Sel: "5"})
 	}
-	a.Node("aa", "aa", codec.Ins{Op: codec.LOAD, Sym: "gg", N: 0}, codec.Ins{Op: codec.MOUT, Sym: "back", Sel: "0"}, codec.Ins{Op: codec.HALT}, codec.Ins{Op: codec.INCMP, Sym: "_", Sel: "0"}, codec.Ins{Op: codec.INCMP, Sym: ".", Sel: "5"})
+	var aa []codec.Ins
+	if p.Phase && !p.Post {
+		aa = append(aa, codec.Ins{Op: codec.RELOAD, Sym: "ff"}, codec.Ins{Op: codec.CATCH, Sym: "tt", N: p.K, Mode: p.M})
+	}
+	if p.Rel {
+		// complementary mode: taken exactly when the entry node's branch was not (otherwise the child is never reached)
+		aa = append(aa, codec.Ins{Op: codec.CATCH, Sym: "_", N: p.K, Mode: !p.M})
+	}
+	aa = append(aa, codec.Ins{Op: codec.LOAD, Sym: "gg", N: 0}, codec.Ins{Op: codec.MOUT, Sym: "back", Sel: "0"}, codec.Ins{Op: codec.HALT}, codec.Ins{Op: codec.INCMP, Sym: "_", Sel: "0"}, codec.Ins{Op: codec.INCMP, Sym: ".", Sel: "5"})
+	a.Node("aa", "aa", aa...)
 	a.Node("tt", "tt", codec.Ins{Op: codec.MOUT, Sym: "back", Sel: "0"}, codec.Ins{Op: codec.HALT}, codec.Ins{Op: codec.INCMP, Sym: "_", Sel: "0"}, codec.Ins{Op: codec.INCMP, Sym: ".", Sel: "5"})
 	a.Node("_catch", "catch", codec.Ins{Op: codec.HALT}, codec.Ins{Op: codec.INCMP, Sym: "_", Sel: "*"})
 	a.FlagCount = 3
 	a.Func("ff", func(e *app.Env, sym string, in []byte, l string) (resource.Result, error) {
+		if p.Phase {
+			if e.Counts[sym] <= 1 {
+				return resource.Result{Content: "nor", FlagSet: append([]uint32(nil), set...)}, nil
+			}
+			return resource.Result{Content: "nor", FlagReset: append([]uint32(nil), reset...)}, nil
+		}
 		return resource.Result{Content: "nor", FlagSet: append([]uint32(nil), set...), FlagReset: append([]uint32(nil), reset...)}, nil
 	})
 	a.Func("gg", func(e *app.Env, sym string, in []byte, l string) (resource.Result, error) {
@@ -275,7 +295,10 @@ func c06Run(c *mc.Ctx) {
 		for _, post := range []bool{false, true} {
 			for _, k := range []uint32{7, 8, 9, 10} {
 				for _, m := range []bool{false, true} {
-					progs = append(progs, c06Prog{croak, post, k, m})
+					progs = append(progs, c06Prog{Croak: croak, Post: post, K: k, M: m})
+					if !croak && !post && k >= 8 {
+						progs = append(progs, c06Prog{K: k, M: m, Rel: true}, c06Prog{K: k, M: m, Phase: true})
+					}
 				}
 			}
 		}
@@ -286,8 +309,8 @@ func c06Run(c *mc.Ctx) {
 				continue
 			}
 			for _, reset := range subs {
-				if !c.Thorough() && len(reset) > 1 {
-					continue // quick tier: FlagReset lists of at most one index (804 pairs)
+				if !c.Thorough() && len(reset) > 1 && !(p.Phase && len(set) <= 1) {
+					continue // quick tier: FlagReset lists of at most one index (804 pairs); two-phase programs: FlagSet <=1, FlagReset <=2
 				}
 				for _, mode := range modes {
 					for _, h := range hists {
